@@ -20,5 +20,9 @@ for line in (V / "tools/mutations.tsv").read_text().splitlines():
     out.append({"property": prop, "file": rel, "old": old.strip(), "new": new.strip(),
                 "verdict": "caught" if rc == 1 else "missed" if rc == 0 else "error", "signatures": [s[:200] for s in sigs[:3]]})
     print(prop, out[-1]["verdict"], sigs[:1], flush=True)
-if not only:
-    (V / "sensitivity.json").write_text(json.dumps(out, indent=1))
+dest = V / "sensitivity.json"
+old = json.loads(dest.read_text()) if dest.exists() else []
+key = lambda e: (e["property"], e["file"], e["old"], e["new"])
+merged = {key(e): e for e in old}
+merged.update({key(e): e for e in out})
+dest.write_text(json.dumps(sorted(merged.values(), key=key), indent=1))
